@@ -2,10 +2,20 @@ PROP = "C14"
 LEVEL = "proof"
 ENGINE = "pyvc"
 HARNESS_MODULES = ["contracts.c14_grid_frame"]
-RULE = "native tier: the same contracts evaluated on the real BoolGridFrame for all h, w <= 3 and all coordinates in [-3, 2h+3] x [-3, 2w+3] (identity of the returned variables against the ghost geometry, exception types, dual of dual, edge/endpoint pairs of _from_grid_frame incl. every segment exactly once)"
+RULE = "native tier: read sequences of three frame[Y, X] on one frame (1x1, 1x2, 2x1; every coordinate on, beside and beyond the doubled lattice) against a fresh frame over the same arrays; the same contracts evaluated on the real BoolGridFrame for all h, w <= 3 and all coordinates in [-3, 2h+3] x [-3, 2w+3] (identity of the returned variables against the ghost geometry, exception types, dual of dual, edge/endpoint pairs of _from_grid_frame incl. every segment exactly once)"
 TRUSTED = ["pyvc model of Python (ints, tuples, lists, objects)", "contract of BoolArray2D.__getitem__ for (int, int) keys (proved under C13)", "z3"]
 ASSUMPTIONS = ["frames whose two arrays have the shapes (h+1, w) and (h, w+1) (the constructor's default arrays are under contract: default_arrays; explicit arrays of other shapes are outside)",
                "'every segment occurs exactly once' in _from_grid_frame is proved as a count plus per-edge correctness; injectivity of the index formulas is checked in the bounded native tier only"]
 TECHNIQUE = "contract-based deductive verification (pyvc): accessors against a ghost geometric model, array reads through the proved contract of BoolArray2D.__getitem__, nested loops of _from_grid_frame with counting invariants and append-site obligations; z3"
 LEVEL_TEXT = "proof: every accessor clause is a discharged postcondition for all frame sizes and coordinates; _from_grid_frame: per-edge consistency and the edge count are proved, injectivity ('exactly once') bounded"
 LEVEL_NOTE = "trusted: pyvc's Python model, the C13 contract of array indexing, z3; frames with explicit arrays of other shapes are outside"
+
+
+def bounded(tier, seed, rep):
+    from bounded import framehist
+    framehist.run(rep, tier)
+
+
+def replay(payload):
+    from bounded import framehist
+    return framehist.replay(payload)
